@@ -59,6 +59,41 @@ def edits(rng, info, doc, docs):
     return out
 
 
+VARIANTS = [([], ["note"]), (["a"], ["a", "b"]), (["a", "b"], ["a"]), ({"k": [1]}, {"k": [1, 2]}), ({"k": 1}, {"k": 1, "z": 2}),
+            (["a"], ["b"]), ([["x"]], [["x"], []]), ("s", ["s"]), (None, []), ([], [])]
+
+
+def attr_variants(rng, schema, d):
+    """two copies of a document that differ (or not) only in one structured attribute value of one node or mark:
+    lists / dicts one of which is a proper prefix / sub-dict of the other"""
+    ja = json.loads(json.dumps(d.to_json()))
+    jb = json.loads(json.dumps(ja))
+    spots = []
+
+    def walk(x, y):
+        for holder_x, holder_y in ((x, y),) if isinstance(x.get("attrs"), dict) and x["attrs"] else ():
+            for k in holder_x["attrs"]:
+                if k not in ("level", "lvl", "order", "colspan"):
+                    spots.append((holder_x["attrs"], holder_y["attrs"], k))
+        for mx, my in zip(x.get("marks") or [], y.get("marks") or []):
+            for k in (mx.get("attrs") or {}):
+                spots.append((mx["attrs"], my["attrs"], k))
+        for cx, cy in zip(x.get("content") or [], y.get("content") or []):
+            walk(cx, cy)
+    walk(ja, jb)
+    if not spots:
+        return None
+    ax, ay, k = rng.choice(spots)
+    v1, v2 = rng.choice(VARIANTS)
+    if rng.random() < 0.5:
+        v1, v2 = v2, v1
+    ax[k], ay[k] = json.loads(json.dumps(v1)), json.loads(json.dumps(v2))
+    try:
+        return Node.from_json(schema, ja), Node.from_json(schema, jb)
+    except Exception:  # noqa: BLE001
+        return None
+
+
 def run(ctx):
     core.lean_phase(ctx)
     rng = ctx.rng
@@ -76,6 +111,9 @@ def run(ctx):
                 pairs.append(("edit", d, e))
                 pairs.append(("edit-rev", e, d))
             pairs.append(("unrelated", d, rng.choice(docs)))
+            av = attr_variants(rng, schema, d)
+            if av is not None:
+                pairs.append(("attr-variant", av[0], av[1]))
         for kind, a, b in pairs:
             if ctx.time_left() < 0:
                 break
